@@ -507,6 +507,7 @@ class Gen:
                     env_atoms.setdefault(tname(a.ty), []).append(a)
         nextra = ch.int(0, 3)
         complex_used = False
+        agg_outer_used = set()
         for _ in range(nextra):
             kinds = []
             if feat.constraints:
@@ -540,9 +541,14 @@ class Gen:
             elif k == "agg":
                 # at most one aggregate with a non-variable target per clause: two of them make
                 # SimplifyAggregateTargetExpression pick the same fresh name and the translator asserts (F16, owned by C14)
-                r = self.gen_agg(env_atoms, lower, allow_complex=not complex_used)
+                # aggregates of one clause mention disjoint sets of outer variables: souffle's "Mutually dependent
+                # aggregate" heuristic rejects e.g. `count:{e(x), x != y}, count:{e(y), y != x}` with x, y outer (F19, C13)
+                env_agg = {k: [v for v in vs if v.name not in agg_outer_used] for k, vs in env_atoms.items()}
+                r = self.gen_agg(env_agg, lower, allow_complex=not complex_used)
                 if r is not None:
                     lit, z = r
+                    outer_names = {v.name for vs in env_atoms.values() for v in vs}
+                    agg_outer_used |= (term_vars(lit.rhs) & outer_names)
                     if lit.rhs.target is not None and not isinstance(lit.rhs.target, Var):
                         complex_used = True
                     env.setdefault(tname(z.ty), []).append(z)
@@ -579,6 +585,30 @@ class Gen:
         self.gen_edb()
         self.gen_groups()
         return self.P
+
+
+def term_vars(t, acc=None):
+    """names of all variables occurring in a term/literal (including inside aggregates)"""
+    acc = set() if acc is None else acc
+    if isinstance(t, Var):
+        acc.add(t.name)
+    elif isinstance(t, (Fn, RecInit)):
+        for a in t.args:
+            term_vars(a, acc)
+    elif isinstance(t, Agg):
+        if t.target is not None:
+            term_vars(t.target, acc)
+        for l in t.body:
+            term_vars(l, acc)
+    elif isinstance(t, Atom):
+        for a in t.args:
+            term_vars(a, acc)
+    elif isinstance(t, Neg):
+        term_vars(t.atom, acc)
+    elif isinstance(t, Cmp):
+        term_vars(t.lhs, acc)
+        term_vars(t.rhs, acc)
+    return acc
 
 
 def generate(ch, feat=None):
